@@ -160,3 +160,54 @@ func SuppliedChecksums(mode string, body []byte) *storage.ChecksumInput {
 func SuppliedIsBad(mode string) bool {
 	return strings.HasPrefix(mode, "bad:") || strings.HasPrefix(mode, "other:")
 }
+
+// CompleteChecksumInput builds the checksum input of a CompleteMultipartUpload
+// from the values the model predicts for the upload (nil when none apply).
+func CompleteChecksumInput(c Concrete) *storage.ChecksumInput {
+	if c.Supplied == "" || c.CompleteSums == nil {
+		return nil
+	}
+	kind, algo, _ := strings.Cut(c.Supplied, ":")
+	bad := kind != "ok"
+	in := &storage.ChecksumInput{}
+	set := func(name string, dst **string) bool {
+		v, ok := c.CompleteSums[name]
+		if !ok {
+			return false
+		}
+		// S3 defines no full-object SHA-1/SHA-256 for multipart uploads: only supply
+		// values of algorithms that exist for the upload's checksum type.
+		if !strings.Contains(v, "-") && (name == "sha1" || name == "sha256") {
+			return false
+		}
+		if bad {
+			// composite values carry a "-N" suffix: distort the base64 part only
+			base, suffix, _ := strings.Cut(v, "-")
+			v = flipB64(base)
+			if suffix != "" {
+				v += "-" + suffix
+			}
+		}
+		*dst = &v
+		return true
+	}
+	okAny := false
+	switch algo {
+	case "crc32":
+		okAny = set("crc32", &in.ChecksumCRC32)
+	case "crc32c":
+		okAny = set("crc32c", &in.ChecksumCRC32C)
+	case "crc64nvme":
+		okAny = set("crc64nvme", &in.ChecksumCRC64NVME)
+	case "sha1":
+		okAny = set("sha1", &in.ChecksumSHA1)
+	case "sha256":
+		okAny = set("sha256", &in.ChecksumSHA256)
+	default:
+		okAny = set("crc32", &in.ChecksumCRC32)
+	}
+	if !okAny {
+		return nil
+	}
+	return in
+}
